@@ -349,6 +349,20 @@ func (c *Ctx) bin(op Op, a, b *Term) *Term {
 			return a
 		}
 	}
+	if (op == OpSDiv || op == OpUDiv) && b.IsConst() && b.C != 0 && a.Op == OpMul {
+		// (y * c) / c == y when the product cannot overflow (y zero-extended, small)
+		for k := 0; k < 2; k++ {
+			cst, y := a.Args[k], a.Args[1-k]
+			if cst.IsConst() && cst.C == b.C && sext(b.C, w) > 0 {
+				if hi, ok := ubound(y); ok && y.Op == OpZExt {
+					lim := uint64(1) << uint(w-1)
+					if hi < lim/b.C {
+						return y
+					}
+				}
+			}
+		}
+	}
 	if op == OpBXor || op == OpSub {
 		if a == b {
 			return c.Const(a.Sort, 0)
